@@ -16,13 +16,13 @@ ASSUMPTIONS = ["rustls (handshake, record layer, certificate validation) is an o
 SSL_CAPS = DEFAULT_CAPS | CLIENT_SSL
 
 
-def mk(cid, lim=U24_MAX, tls=1, auth="ok", clientcert=0, user=b"jon", split=0, prechunks=None, chunks="*", cmds=(), scripts=()):
+def mk(cid, lim=U24_MAX, tls=1, auth="ok", clientcert=0, user=b"jon", split=0, prechunks=None, chunks="*", cmds=(), scripts=(), bighello=0):
     pre = frame(ssl_request(SSL_CAPS), 1, lim)
     hs2 = hs41(user, caps=SSL_CAPS)
     plain = frame(hs2, 2, lim)
     for kind, payload in cmds:
         plain += frame(payload, 0, lim)
-    L = ["case %s" % cid, "cfg lim=%d tls=%d auth=%s clientcert=%d" % (lim, tls, auth, clientcert),
+    L = ["case %s" % cid, "cfg lim=%d tls=%d auth=%s clientcert=%d" % (lim, tls, auth, clientcert) + (" bighello=%d" % bighello if bighello else ""),
          "pre " + hexspec(pre), "plain " + hexspec(plain), "split %d" % split]
     if prechunks:
         L.append("prechunks " + " ".join(str(x) for x in prechunks))
@@ -94,6 +94,12 @@ def run(ctx):
             for cc in (0, 1):
                 n += 1
                 cases.append(mk("c18_%d" % n, tls=tls, auth=auth, clientcert=cc, split=rng.choice([0, 7]), cmds=cmdsets[1], scripts=scripts))
+    # a ClientHello larger than any single read buffer, coalesced behind the SSL request as far as the
+    # server's read buffer allows, and in other chunkings
+    for big in (5000, 17000, 40000):
+        for sp, ch in ((100000, "*"), (100000, [4096]), (3000, [1000, 3]), (0, "*")):
+            n += 1
+            cases.append(mk("c18_%d" % n, bighello=big, split=sp, chunks=ch, cmds=cmdsets[1], scripts=scripts, clientcert=rng.randint(0, 1)))
     for lim in (64, 300):
         n += 1
         cases.append(mk("c18_%d" % n, lim=lim, cmds=cmdsets[2], scripts=scripts, chunks=[5]))
